@@ -19,6 +19,8 @@ inline std::atomic<uint64_t> g_stamp{1}; // NOLINT
 // watched by the stall watchdog in main.cpp
 inline uint64_t stamp() { return g_stamp.fetch_add(1, std::memory_order_seq_cst); }
 inline std::atomic<uint64_t> g_progress{0}; // NOLINT : bumped by harness loops that take no stamps
+// set while the harness is inside init() / fin() / destroy(): a stall there is a lifecycle call that does not return (C16)
+inline std::atomic<const char*> g_lifecycle_call{nullptr}; // NOLINT
 
 // ---------------------------------------------------------------- values
 // layout: [magic:4][len:4][id:8][keyhash:8][fill ...]; minimum 24 bytes.
@@ -192,7 +194,7 @@ private:
 inline ctl::Profile make_profile(Rng& r, int which) {
     using ctl::point;
     ctl::Profile p;
-    switch (which % 6) {
+    switch (which % 7) {
         case 0: break; // none: maximum native interleaving rate
         case 1:        // remove window
             p.at(point::RM_CLEARED) = ctl::Rule{30000, 2, 3000};
@@ -211,6 +213,10 @@ inline ctl::Profile make_profile(Rng& r, int which) {
             p.at(point::SCAN_NEXT_LOADED) = ctl::Rule{20000, 2, 4000};
             p.at(point::SCAN_BEFORE_FINAL) = ctl::Rule{20000, 2, 4000};
             p.at(point::RM_CLEARED) = ctl::Rule{10000, 2, 2000};
+            break;
+        case 6: // stalls right after a lock was released: "unlock, then one more store" windows of writers
+            p.at(point::LOCK_REL) = ctl::Rule{static_cast<uint32_t>(r.range(2000, 20000)), 3, static_cast<uint32_t>(r.range(20, 300))};
+            p.at(point::ROOT_REL) = ctl::Rule{8000, 3, 100};
             break;
         default: // long holds with the lock
             p.at(point::LOCK_ACQ) = ctl::Rule{8000, 3, 30};
